@@ -106,6 +106,11 @@ theorem nthQ_unitFrom (k w j i : Nat) :
       have : j + 1 + i = j + (i + 1) := by omega
       simp [this]
 
+theorem length_junkRow (cfg : Cfg) (idx w j : Nat) : (junkRow cfg idx w j).length = w := by
+  induction w generalizing j with
+  | zero => rfl
+  | succ w ih => simp [junkRow, ih]
+
 theorem length_unit (w k : Nat) : (unit w k).length = w := length_unitFrom k w 0
 
 theorem nthQ_unit (w k i : Nat) : nthQ (unit w k) i = if i < w ∧ i = k then 1 else 0 := by
@@ -312,5 +317,280 @@ theorem ExpOK.spec {w : Nat} {p : Pair} {recs : List (Nat × Rat)} (h : ExpOK w 
   simp only []
   rw [sqdev_expand, ← hm, h.m2, ← h.mean, h.n]
   ring
+
+theorem ExpOK.congr {w : Nat} {p q : Pair} {recs : List (Nat × Rat)} (hc : q.cell = p.cell) (hn : q.cnt = p.cnt)
+    (h : ExpOK w p recs) : ExpOK w q recs :=
+  ⟨by rw [hn]; exact h.len, by rw [hc]; exact h.n, by rw [hc]; exact h.mean, by rw [hc]; exact h.m2,
+   by rw [hn]; exact h.cnt, by rw [hc]; exact h.mean0⟩
+
+/-! ## §4 sync algebra -/
+
+/-- the reward clause: equal to the empirical mean; for the sparse model (which copies the reward
+    only under `checkDifferentSmall`) equal or within that tolerance -/
+def RewOK (cfg : Cfg) (rew m : Rat) : Prop :=
+  match cfg.rewTol with
+  | none => rew = m
+  | some t => rew = m ∨ absQ (rew - m) ≤ t
+
+theorem copyRew_ok (cfg : Cfg) (old new : Rat) : RewOK cfg (copyRew cfg old new) new := by
+  unfold RewOK copyRew
+  cases cfg.rewTol with
+  | none => rfl
+  | some t =>
+    simp only
+    split_ifs with h
+    · exact Or.inr h
+    · exact Or.inl rfl
+
+/-- with the dense reward rule the reward clause is plain equality -/
+theorem RewOK_dense {cfg : Cfg} (h : cfg.rewTol = none) {rew m : Rat} (hr : RewOK cfg rew m) : rew = m := by
+  unfold RewOK at hr; rw [h] at hr; exact hr
+
+theorem fullSync_of_zero (cfg : Cfg) (p : Pair) (h : p.cell.n = 0) : p.fullSync cfg = p := by
+  simp [Pair.fullSync, h]
+
+/-- **full_sync_is_frequency**: `sync(s,a)` on a pair with data makes the row the empirical
+    frequencies and the reward the empirical mean of the recorded data -/
+theorem full_sync_is_frequency (cfg : Cfg) (w : Nat) (p : Pair) (recs : List (Nat × Rat))
+    (he : ExpOK w p recs) (hne : recs ≠ []) :
+    (p.fullSync cfg).row.length = w ∧ (∀ i, i < w → nthQ (p.fullSync cfg).row i = freqOf recs i) ∧
+    RewOK cfg (p.fullSync cfg).rew (meanOf recs) := by
+  have hn : p.cell.n ≠ 0 := by rw [he.n]; simpa using hne
+  unfold Pair.fullSync
+  rw [if_neg hn]
+  refine ⟨by simp [he.len], fun i hi => ?_, ?_⟩
+  · simp only [nthQ_map_cast, he.cnt i hi, freqOf, he.n]
+  · rw [← he.spec.2.1]; exact copyRew_ok ..
+
+theorem incSync_eq_full (cfg : Cfg) (p : Pair) (s1 : Nat) (h : p.cell.n % cfg.period = 0) :
+    p.incSync cfg s1 = p.fullSync cfg := by
+  simp [Pair.incSync, h]
+
+theorem incSync_n1 (cfg : Cfg) (p : Pair) (s1 : Nat) (h0 : ¬ p.cell.n % cfg.period = 0) (h1 : p.cell.n = 1) :
+    p.incSync cfg s1 = { p with rew := copyRew cfg p.rew p.cell.mean,
+                                row := setQ (if cfg.n1Clear then zeros p.row.length else setQ p.row p.dfl 0) s1 1 } := by
+  unfold Pair.incSync
+  dsimp only
+  rw [if_neg h0, if_pos h1]
+
+def incNewV (p : Pair) (s1 : Nat) : Rat := (nthN p.cnt s1 : Rat) / ((p.cell.n - 1 : Nat) : Rat)
+def incNewSum (p : Pair) (s1 : Nat) : Rat := 1 + (incNewV p s1 - nthQ p.row s1)
+
+theorem incSync_ge2 (cfg : Cfg) (p : Pair) (s1 : Nat) (h0 : ¬ p.cell.n % cfg.period = 0) (h1 : ¬ p.cell.n = 1) :
+    p.incSync cfg s1 = { p with rew := copyRew cfg p.rew p.cell.mean,
+                                row := (setQ p.row s1 (incNewV p s1)).map (fun x => x / incNewSum p s1) } := by
+  unfold Pair.incSync incNewSum incNewV
+  dsimp only
+  rw [if_neg h0, if_neg h1]
+
+/-- the renormalisation identity behind `sync(s,a,s1)`: a row of frequencies with denominator `n`,
+    one numerator raised by one, divided by `1 + (c+1)/n − c/n`, is the row with denominator `n+1` -/
+theorem inc_algebra (n c k : Nat) (hn : n ≠ 0) :
+    ((c + 1 : Nat) : Rat) / n / (1 + (((c + 1 : Nat) : Rat) / n - (c : Rat) / n)) = ((c + 1 : Nat) : Rat) / ((n + 1 : Nat) : Rat) ∧
+    (k : Rat) / n / (1 + (((c + 1 : Nat) : Rat) / n - (c : Rat) / n)) = (k : Rat) / ((n + 1 : Nat) : Rat) := by
+  have h1 : (n : Rat) ≠ 0 := by exact_mod_cast hn
+  have h2 : ((n : Rat) + 1) ≠ 0 := by positivity
+  push_cast
+  constructor <;> field_simp <;> ring
+
+/-! ## §5 history-level invariant of the learned model -/
+
+/-- The learned-model part of a pair against the ghost `g`
+    (`g.recs` records since the last reset, `g.snap` records absorbed by the last effective sync,
+    `g.pend` record calls since the pair's last sync call).  `nr` = "no `reset` so far". -/
+structure ModOK (cfg : Cfg) (w : Nat) (nr : Bool) (p : Pair) (g : Ghost) : Prop where
+  rlen : p.row.length = w
+  k1 : g.pend = 0 → g.recs = [] ∨ g.snap = g.recs
+  k2 : g.pend = 1 → g.recs.length ≤ 1 ∨ g.snap = g.recs.dropLast
+  mRow : g.snap ≠ [] → ∀ i, i < w → nthQ p.row i = freqOf g.snap i
+  mRew : g.snap ≠ [] → RewOK cfg p.rew (meanOf g.snap)
+  dflt : cfg.ctorJunk = false → g.snap = [] → p.row = unit w p.dfl ∧ p.rew = 0
+  j1 : nr = true → g.pend ≤ g.recs.length
+  j2 : nr = true → g.pend = g.recs.length → g.snap = []
+
+theorem ModOK.init (cfg : Cfg) (w dfl idx : Nat) : ModOK cfg w true (Pair.init w dfl idx) Ghost.init := by
+  constructor <;> simp [Pair.init, Ghost.init, length_unit]
+
+theorem ModOK.of_synced {cfg : Cfg} {w : Nat} {nr : Bool} {q : Pair} {g' : Ghost}
+    (hne : g'.recs ≠ []) (hs : g'.snap = g'.recs) (hp : g'.pend = 0)
+    (hl : q.row.length = w) (hr : ∀ i, i < w → nthQ q.row i = freqOf g'.recs i)
+    (hw : RewOK cfg q.rew (meanOf g'.recs)) : ModOK cfg w nr q g' := by
+  refine ⟨hl, fun _ => Or.inr hs, fun h => by omega, fun _ => by rw [hs]; exact hr, fun _ => by rw [hs]; exact hw,
+    fun _ h => absurd (hs ▸ h) hne, fun _ => by omega, fun _ h => ?_⟩
+  rw [hp] at h
+  exact absurd (List.length_eq_zero_iff.mp h.symm) hne
+
+theorem ModOK.sync_empty {cfg : Cfg} {w : Nat} {nr : Bool} {p : Pair} {g : Ghost}
+    (hm : ModOK cfg w nr p g) (he : g.recs = []) : ModOK cfg w nr p { g with pend := 0 } := by
+  refine ⟨hm.rlen, fun _ => Or.inl he, fun h => by simp at h, hm.mRow, hm.mRew, hm.dflt, fun _ => by simp, fun hn _ => ?_⟩
+  have h1 := hm.j1 hn
+  have : g.pend = g.recs.length := by rw [he] at h1 ⊢; simpa using h1
+  exact hm.j2 hn this
+
+/-- one local operation preserves the model invariant, provided the operation is well formed and
+    respects the documented precondition of `sync(s,a,s1)`; the `visitSum == 1` branch needs either the
+    repaired code (`n1Clear`) or a reset-free past over initialised storage -/
+theorem ModOK.step (cfg : Cfg) (w : Nat) (nr : Bool) (p : Pair) (g : Ghost) (op : LOp)
+    (he : ExpOK w p g.recs) (hm : ModOK cfg w nr p g)
+    (hwf : opWF w op = true) (hpre : incPreOK g op = true)
+    (hc : cfg.n1Clear = true ∨ (nr = true ∧ cfg.ctorJunk = false)) :
+    ModOK cfg w (nr && !isReset op) (p.step cfg op) (g.step op) := by
+  -- effective full sync, shared by `sync`, the periodic branch of `syncInc`, `ctor true`
+  have full : ∀ (p' : Pair), ExpOK w p' g.recs → g.recs ≠ [] → ∀ g' : Ghost, g'.recs = g.recs → g'.snap = g.recs → g'.pend = 0 →
+      ∀ nr', ModOK cfg w nr' (p'.fullSync cfg) g' := by
+    intro p' he' hne g' h1 h2 h3 nr'
+    obtain ⟨a, b, c⟩ := full_sync_is_frequency cfg w p' g.recs he' hne
+    exact ModOK.of_synced (by rw [h1]; exact hne) (by rw [h1, h2]) h3 a (by rw [h1]; exact b) (by rw [h1]; exact c)
+  cases op with
+  | nop => simpa [Pair.step, Ghost.step, isReset] using hm
+  | record s1 r =>
+    simp only [Pair.step, Ghost.step, isReset, Bool.not_false, Bool.and_true]
+    refine ⟨hm.rlen, fun h => by simp at h, fun h => ?_, hm.mRow, hm.mRew, hm.dflt, fun hn => ?_, fun hn h => ?_⟩
+    · have h0 : g.pend = 0 := by simpa using h
+      rcases hm.k1 h0 with e | e
+      · left; simp [e]
+      · right; simp [e]
+    · have := hm.j1 hn; simp; omega
+    · have h' : g.pend = g.recs.length := by simpa using h
+      exact hm.j2 hn h'
+  | reset =>
+    simp only [Pair.step, Ghost.step, isReset, Bool.not_true, Bool.and_false]
+    exact ⟨hm.rlen, fun _ => Or.inl rfl, fun _ => Or.inl (by simp), hm.mRow, hm.mRew, hm.dflt,
+      fun h => by simp at h, fun h => by simp at h⟩
+  | sync =>
+    simp only [Pair.step, Ghost.step, isReset, Bool.not_false, Bool.and_true]
+    by_cases e : g.recs = []
+    · have hn : p.cell.n = 0 := by rw [he.n, e]; rfl
+      rw [fullSync_of_zero cfg p hn]
+      simpa [e] using hm.sync_empty e
+    · have : g.recs.isEmpty = false := by simpa using e
+      simp only [this]
+      exact full p he e { g with snap := g.recs, pend := 0 } rfl rfl rfl _
+  | ctor b =>
+    simp only [Pair.step, isReset, Bool.not_false, Bool.and_true]
+    cases b with
+    | false =>
+      simp only [Ghost.step, Pair.ctor, Bool.false_eq_true, if_false]
+      refine ⟨by simp [length_unit, he.len], fun h => ?_, fun h => ?_, fun h => by simp at h, fun h => by simp at h,
+        fun _ _ => ⟨by simp [he.len], rfl⟩, fun _ => by simp, fun _ _ => rfl⟩
+      · left; exact List.length_eq_zero_iff.mp (by simpa using h)
+      · left; simp at h ⊢; omega
+    | true =>
+      simp only [Ghost.step, Pair.ctor, if_true]
+      by_cases e : g.recs = []
+      · have hn : p.cell.n = 0 := by rw [he.n, e]; rfl
+        have hq : ∀ r0 : List Rat, (({ p with row := r0, rew := 0 } : Pair).fullSync cfg) = { p with row := r0, rew := 0 } :=
+          fun r0 => fullSync_of_zero cfg _ hn
+        simp only [hq, hn, if_true]
+        refine ⟨?_, fun _ => Or.inl e, fun h => by simp at h, fun h => absurd (by simpa using e) h,
+          fun h => absurd (by simpa using e) h, fun hj _ => ?_, fun _ => by simp, fun _ _ => by simpa using e⟩
+        · rw [length_setQ]; split_ifs
+          · simp [length_junkRow, he.len]
+          · simp [length_zeros, he.len]
+        · simp only [hj, Bool.false_eq_true, if_false]
+          refine ⟨?_, by simp⟩
+          apply row_ext
+          · simp [length_setQ, length_zeros, length_unit, he.len]
+          · intro i hi
+            simp only [nthQ_setQ, nthQ_zeros, nthQ_unit, length_zeros, he.len]
+            rw [length_setQ, length_zeros, he.len] at hi
+            by_cases d : p.dfl = i
+            · subst d; simp [hi]
+            · have : ¬ i = p.dfl := fun x => d x.symm
+              simp [d, this]
+      · have hn : ¬ p.cell.n = 0 := by rw [he.n]; simpa using e
+        have hq : ∀ r0 : List Rat, (({ p with row := r0, rew := 0 } : Pair).fullSync cfg).cell.n = p.cell.n := fun r0 => by simp
+        simp only [hq, hn, if_false]
+        exact full { p with row := if cfg.ctorJunk = true then junkRow cfg p.idx p.cnt.length 0 else zeros p.cnt.length, rew := 0 }
+          (ExpOK.congr (p := p) rfl rfl he) e { g with snap := g.recs, pend := 0 } rfl rfl rfl _
+  | syncInc s1 =>
+    simp only [Pair.step, isReset, Bool.not_false, Bool.and_true]
+    have hs1 : s1 < w := by simpa [opWF] using hwf
+    simp only [incPreOK, Bool.and_eq_true, beq_iff_eq] at hpre
+    obtain ⟨hp1, hlast⟩ := hpre
+    by_cases e : g.recs = []
+    · have hn : p.cell.n = 0 := by rw [he.n, e]; rfl
+      rw [incSync_eq_full cfg p s1 (by simp [hn]), fullSync_of_zero cfg p hn]
+      simpa [Ghost.step, e] using hm.sync_empty e
+    · have hemp : g.recs.isEmpty = false := by simpa using e
+      simp only [Ghost.step, hemp]
+      by_cases hper : p.cell.n % cfg.period = 0
+      · rw [incSync_eq_full cfg p s1 hper]
+        exact full p he e { g with snap := g.recs, pend := 0 } rfl rfl rfl _
+      · -- the last record of the pair went to `s1`
+        obtain ⟨ys, r, hys⟩ : ∃ ys r, g.recs = ys ++ [(s1, r)] := by
+          cases hl : g.recs.getLast? with
+          | none => exact absurd (List.getLast?_eq_none_iff.mp hl) e
+          | some xr =>
+            obtain ⟨x, r⟩ := xr
+            rw [hl] at hlast
+            have hx : x = s1 := by simpa using hlast
+            obtain ⟨ys, hys⟩ := List.getLast?_eq_some_iff.mp hl
+            exact ⟨ys, r, by rw [hys, hx]⟩
+        have hN : p.cell.n = ys.length + 1 := by rw [he.n, hys]; simp
+        have hmean : RewOK cfg (copyRew cfg p.rew p.cell.mean) (meanOf g.recs) := by
+          rw [← he.spec.2.1]; exact copyRew_ok ..
+        by_cases h1 : p.cell.n = 1
+        · rw [incSync_n1 cfg p s1 hper h1]
+          have hy : ys = [] := List.length_eq_zero_iff.mp (by omega)
+          have hrec : g.recs = [(s1, r)] := by rw [hys, hy]; rfl
+          refine ModOK.of_synced (g' := { g with snap := g.recs, pend := 0 }) e rfl rfl ?_ ?_ hmean
+          · simp only [length_setQ]
+            split_ifs
+            · simp [length_zeros, hm.rlen]
+            · simp [length_setQ, hm.rlen]
+          · intro i hi
+            have hf : freqOf g.recs i = if s1 = i then 1 else 0 := by
+              rw [hrec]; by_cases d : s1 = i <;> simp [freqOf, countS1, d]
+            simp only [hf]
+            by_cases hcl : cfg.n1Clear = true
+            · simp only [hcl, if_true, nthQ_setQ, nthQ_zeros, length_zeros, hm.rlen]
+              by_cases d : s1 = i
+              · subst d; simp [hs1]
+              · simp [d]
+            · rcases hc with hc | ⟨hnr, hj⟩
+              · exact absurd hc hcl
+              · have hsnap : g.snap = [] := hm.j2 hnr (by rw [hp1, hrec]; rfl)
+                obtain ⟨hrow, _⟩ := hm.dflt hj hsnap
+                simp only [hcl, Bool.false_eq_true, if_false, nthQ_setQ, length_setQ, hrow, nthQ_unit, length_unit]
+                by_cases d : s1 = i
+                · simp [d, hi]
+                · simp only [d, false_and, if_false]
+                  by_cases d2 : p.dfl = i
+                  · subst d2; simp [hi]
+                  · have : ¬ i = p.dfl := fun x => d2 x.symm
+                    simp [d2, this]
+        · rw [incSync_ge2 cfg p s1 hper h1]
+          have hyne : ys ≠ [] := by
+            intro h; apply h1; rw [hN, h]; rfl
+          have hyl : ys.length ≠ 0 := by simpa using hyne
+          have hsnap : g.snap = ys := by
+            rcases hm.k2 hp1 with h | h
+            · rw [hys] at h; simp at h; first | omega | exact absurd h hyne
+            · rw [h, hys]; simp
+          have hrowOld : ∀ i, i < w → nthQ p.row i = freqOf ys i := by
+            have := hm.mRow (by rw [hsnap]; exact hyne)
+            rwa [hsnap] at this
+          have hV : incNewV p s1 = ((countS1 s1 ys + 1 : Nat) : Rat) / (ys.length : Rat) := by
+            unfold incNewV
+            rw [he.cnt s1 hs1, hys, countS1_append, hN]
+            simp [countS1]
+          have hS : incNewSum p s1 = 1 + (((countS1 s1 ys + 1 : Nat) : Rat) / (ys.length : Rat) - (countS1 s1 ys : Rat) / (ys.length : Rat)) := by
+            unfold incNewSum
+            rw [hV, hrowOld s1 hs1]; rfl
+          obtain ⟨alg1, _⟩ := inc_algebra ys.length (countS1 s1 ys) 0 hyl
+          refine ModOK.of_synced (g' := { g with snap := g.recs, pend := 0 }) e rfl rfl ?_ ?_ hmean
+          · simp [length_setQ, hm.rlen]
+          · intro i hi
+            simp only [nthQ_map_div, nthQ_setQ, hm.rlen, hS]
+            have hlen : ((g.recs.length : Nat) : Rat) = ((ys.length + 1 : Nat) : Rat) := by rw [hys]; simp
+            by_cases d : s1 = i
+            · subst d
+              simp only [hs1, and_self, if_true, hV, freqOf]
+              rw [alg1, hlen, hys, countS1_append]
+              simp [countS1]
+            · simp only [d, false_and, if_false, hrowOld i hi, freqOf]
+              rw [(inc_algebra ys.length (countS1 s1 ys) (countS1 i ys) hyl).2, hlen, hys, countS1_append]
+              simp [countS1, d]
 
 end AITB.Exp
